@@ -63,6 +63,10 @@ Stable == obs.r.ok =>
             /\ NestEnc(obs.r2.s, IF obs.r2.as = <<>> THEN <<>> ELSE obs.r2.as[1],
                        depth, mode, V) = obs.w2
 
+(* enumeration of the abstract strings for the binding (XmlTextMCEmit*.cfg, *)
+(* one worker): every visited string is printed once                       *)
+Emit == PrintT(<<"VEC", s>>)
+
 (* depth 0 attribute law on its own (the NAME="..." of a top-level element) *)
 Attr0 == (AttrAll \/ V.attrEsc \/ NameLike(s)) => (obs.at.ok /\ obs.at.s = s)
 =============================================================================
